@@ -618,7 +618,7 @@ bool read_number(const char *in, Option<T> &out)
    }
    bool invert = false;
 
-   if (strchr("-", in[0]))
+   if (in[0] == '-')
    {
       invert = true;
       ++in;
@@ -731,7 +731,8 @@ bool Option<bool>::read(const char *in)
    }
    bool invert = false;
 
-   if (strchr("~!-", in[0]))
+   if (  in[0] != 0
+      && strchr("~!-", in[0]))
    {
       invert = true;
       ++in;
